@@ -382,7 +382,7 @@ func (w *World) settle(activity func() int64, opt Options) {
 	defer w.mu.Unlock()
 	w.Stats["quiet_but_goroutines_still_busy"] += slow
 	describe := func(rr *RR) map[string]interface{} {
-		d := map[string]interface{}{"rr": rr.Idx, "runs": rr.runs, "runs_at_last_write": rr.runsAtMark, "recent_runs": rr.recent,
+		d := map[string]interface{}{"rr": rr.Idx, "runs": rr.runs, "runs_in_progress_now": rr.inflight, "runs_at_last_write": rr.runsAtMark, "recent_runs": rr.recent,
 			"always_spawn_goroutine": rr.Spec.Spawn}
 		if rr.lastOK != nil {
 			d["last_successful_run"] = rr.lastOK
